@@ -153,6 +153,13 @@ theorem split_is_category_guard (S : Sem δ) (c : Cat) (p q : Prog) (fb : δ) (m
   | nil => exact absurd hf (hne r hr)
   | cons _ _ => rfl
 
+/-- Programs that agree up to the order and multiplicity of a function's values and the order of
+a rule's conditions mean the same (this is what lets the check tolerate an optimizer that sorts or
+deduplicates differently from the model). -/
+theorem same_normal_form_same_meaning (S : Sem δ) (p q : Prog) (fb : δ) (must : Bool)
+    (h : nfEqP p q = true) : firstMatchAst S p fb must = firstMatchAst S q fb must :=
+  firstMatchAst_nfEqP S p q h fb must
+
 /-! ## Non-vacuity and necessity: concrete programs -/
 
 section examples
@@ -214,6 +221,16 @@ theorem ex_compiled : compiledDecision exSem exOut 0 false = some (1, false) := 
 example : firstMatchAst (userSem exSem exGeo true) exRules 0 false = (1, false) :=
   (traffic_compiled_decides_as_written exSem exSem_matchSet exGeo exRules exOut 0 false (1, false)
     exRules_wf ex_pipeline ex_compiled).symm
+
+/-- `nfEqP` relates programs that really differ as ASTs (value order, a duplicate, condition order) … -/
+example : nfEqP
+    [⟨[⟨"port", false, [⟨"", "80"⟩, ⟨"", "443"⟩]⟩, ⟨"ip", true, [⟨"", "::1"⟩]⟩], ⟨"proxy", false, []⟩⟩]
+    [⟨[⟨"ip", true, [⟨"", "::1"⟩]⟩, ⟨"port", false, [⟨"", "443"⟩, ⟨"", "80"⟩, ⟨"", "443"⟩]⟩], ⟨"proxy", false, []⟩⟩] = true := by
+  decide
+
+/-- … and separates programs that differ in a value, a negation, a rule boundary or an outbound. -/
+example : nfEqP [⟨[⟨"port", false, [⟨"", "80"⟩]⟩], ⟨"proxy", false, []⟩⟩]
+    [⟨[⟨"port", false, [⟨"", "80"⟩, ⟨"", "443"⟩]⟩], ⟨"proxy", false, []⟩⟩] = false := by decide
 
 /-- **Why negated neighbours must not be merged** (`fix:` 89b7b19): with the old merge condition
 (equal negation is enough) `!port(80) -> proxy ; !port(443) -> proxy ; port(80) -> direct` sends the
